@@ -60,6 +60,13 @@ EXTRA = {
             ("SafeC.Sort.dismantleStep_safe", "SafeC.Proofs.SortShape", "lemma", "one round of the dismantling loop preserves the shape (drop a one-element tree / split the smallest tree, both trinkle calls on valid forests), head >= 1"),
             ("SafeC.Sort.smooth_safe", "SafeC.Proofs.SortShape", "lemma", "whole smoothsort on n elements returns with the size kept: Shape.init, mainLoop_safe, trinkle_safe, dismantle_safe (ends exactly at head = 0)"),
             ("SafeC.Sort.qsortMusl_safe", "SafeC.Proofs.SortWhole", "lemma", "qsort_musl with the table it builds itself and the real pntz, nmemb up to leo 65 (repaired) / leo 34 (int builtin)"),
+            ("SafeC.Sort.sift_spec", "SafeC.Proofs.SortSift", "lemma", "sift restores the heap order of one Leonardo tree given both subtrees are heaps (consistent comparator); touches only the tree; the new root dominates the old tree"),
+            ("SafeC.Sort.cycle_fn", "SafeC.Proofs.SortSift", "lemma", "cycle on in-range positions = rot on the array seen as a function (sequential moves, repeated positions allowed)"),
+            ("SafeC.Sort.trinkle_spec", "SafeC.Proofs.SortTrinkle", "lemma", "trinkle on a forest of heaps with ascending roots from the second tree on (first tree trusted or with heap-ordered subtrees): all trees heaps, all roots ascending, only [0, head] rearranged"),
+            ("SafeC.Sort.RootsFin.roots", "SafeC.Proofs.SortSorted", "lemma", "build phase: when the tree at head is final (lp[pshift-1] >= high-head) every tree to its left was final when decided, so the roots left of it ascend"),
+            ("SafeC.Sort.mainStep_sorted", "SafeC.Proofs.SortSorted", "lemma", "one round of the main loop preserves: subtrees of the smallest tree heaps, all other trees heaps, roots of final trees ascending"),
+            ("SafeC.Sort.dismantleStep_sorted", "SafeC.Proofs.SortSorted", "lemma", "one round of the dismantling loop preserves heaps + ascending roots and puts the maximum of [0, head] at head for good"),
+            ("SafeC.Sort.smooth_sorted", "SafeC.Proofs.SortSorted", "lemma", "whole smoothsort, consistent comparator: result ordered"),
             ("SafeC.Sort.Cyc.chunkGo_rep2", "SafeC.Proofs.SortCycle", "lemma", "one chunk of the byte-level cycle rotates exactly the byte columns [off, off+l) of every listed element, repeated positions included"),
             ("SafeC.Sort.Cyc.cycleBytes_rep2", "SafeC.Proofs.SortCycle", "lemma", "the while(width) loop of cycle rotates every byte column once (induction on the chunk count)")],
     "C11": [("SafeC.Printf.ntoaDigits_eq", "SafeC.Proofs.PrintfDigits", "lemma", "the do-while digit loop from any fill state with room and fuel: appends the digits of the value, least significant first (induction on the fuel)"),
